@@ -21,14 +21,14 @@ Print Assumptions C15_spok_accepts_ties_Ce.
 Theorem C15_nisp2sec_complete :
   forall CS m c g h n ds p ds',
   (0 < n)%Z -> (0 <= m)%Z -> (0 <= c_rand c)%Z -> c_value c = ((g ^ m * h ^ c_rand c) mod n)%Z ->
-  Forall (fun d => (0 <= d_val d)%Z) ds ->
+  Forall bits_ok ds ->
   nisp2sec_gen CS m c g h n ds = Ok (p, ds') ->
   nisp2sec_verify p c g h n = Ok true.
 Proof. exact nisp2sec_complete. Qed.
 Check (C15_nisp2sec_complete :
   forall CS m c g h n ds p ds',
   (0 < n)%Z -> (0 <= m)%Z -> (0 <= c_rand c)%Z -> c_value c = ((g ^ m * h ^ c_rand c) mod n)%Z ->
-  Forall (fun d => (0 <= d_val d)%Z) ds ->
+  Forall bits_ok ds ->
   nisp2sec_gen CS m c g h n ds = Ok (p, ds') ->
   nisp2sec_verify p c g h n = Ok true).
 Print Assumptions C15_nisp2sec_complete.
